@@ -326,7 +326,7 @@ theorem exHistory_valid : Hist.ValidOps exChain exHistory := by
   · exact ⟨⟨pk 'a', pk 'b', pk 'c', trivial⟩, by simp, _, rfl⟩
   refine .cons (t' := .dict .n0 [(['k'], .bool true),
       (['a'], .dict .n0 [(['b'], .list .n0 [.dict .n0 [(['c'], .int 2)]])])]) ?_ (by decide) ?_
-  · refine ⟨trivial, ⟨_, _, rfl⟩, pk 'a', (by intro e h; cases h), ?_, by simp [GOk, CStep.isName]⟩
+  · refine ⟨trivial, pk 'a', ?_, by simp [GOk, CStep.isName], (by intro h; cases h)⟩
     intro x hx; simp at hx; rcases hx with rfl | rfl
     · exact ⟨pk 'b', Or.inl (by decide)⟩
     · exact pk 'c'
